@@ -7,7 +7,7 @@ git -C /repo worktree remove --force $wt >/dev/null 2>&1
 git -C /repo worktree add -q --detach $wt HEAD || exit 2
 (cd $wt && git apply /verif/seeded/$s/patch.diff) || { echo "PATCH DOES NOT APPLY: $s"; git -C /repo worktree remove --force $wt; exit 3; }
 for p in "$@"; do
-  o=$(cd /verif && VERIF_REPO=$wt timeout 1500 ./check $p --tier ${TIER:-quick} 2>&1 | grep -E "^VIOLATION|^KNOWN" | head -4)
+  o=$(cd ${VERIFDIR:-/verif} && VERIF_REPO=$wt timeout 1500 ./check $p --tier ${TIER:-quick} 2>&1 | grep -E "^VIOLATION|^KNOWN" | head -4)
   echo "[$s] check $p: ${o:-silent}"
 done
 git -C /repo worktree remove --force $wt
